@@ -75,6 +75,16 @@ def run_for(prop, tier):
                                      "what": h["what"], "backend": "kani/cbmc"})
             if not ok:
                 failed = re.findall(r"Failed Checks: (.*)", b)
+                # a harness is a violation only when CBMC reports a failed property check; running out of memory / time,
+                # a crashed back end or an unwinding bound that is too small are machinery limits: undecided, never an alarm
+                resource = ("CBMC failed" in b or "out of memory" in b or "CBMC timed out" in b or "Killed" in b
+                            or not failed or all("unwinding assertion" in f for f in failed))
+                if resource:
+                    res["harnesses"][-1]["ok"] = None
+                    res["harnesses"][-1]["note"] = "not decided (back end resource limit or no failed property check reported)"
+                    if h["class"] == "complete":
+                        res["undecided"] = "harness %s not decided: %s" % (h["name"], (b[-300:]).replace("\n", " "))
+                    continue
                 # ask Kani for the concrete failing input (byte vectors of every kani::any()) and keep it in the replay file
                 cx = None
                 try:
